@@ -1810,11 +1810,14 @@ class VM:
 
         def toString_fn(*args):
             # Join elements with comma
-            return ",".join(str(arr.get_index(i)) for i in range(arr.length))
+            return ",".join(to_string(arr.get_index(i)) for i in range(arr.length))
 
         def join_fn(*args):
-            separator = to_string(args[0]) if args else ","
-            return separator.join(str(arr.get_index(i)) for i in range(arr.length))
+            separator = args[0] if args else UNDEFINED
+            if isinstance(separator, JSObject):
+                separator = self._to_primitive(separator, "string")
+            separator = "," if separator is UNDEFINED else to_string(separator)
+            return separator.join(to_string(arr.get_index(i)) for i in range(arr.length))
 
         def subarray_fn(*args):
             def relative_index(value, default):
